@@ -156,3 +156,11 @@ CLAIMS["C15"] = {
     "note": "Known finding (probe + KNOWN-FINDING line): a tag that is not valid UTF-8 makes the merged batch unencodable and every client's datapoints of that flush are discarded. Real-time retry sleeps bound the number of fault cases. Needs the verif-tagged flush coordinator re-export for the manual mode.",
     "technique": "property-based testing (rapid) of the concurrent forwarder with a conservation / attribution / retry-discipline oracle over decoded request bodies",
 }
+
+CLAIMS["C19"] = {
+    "text": "Event lines of the full documented grammar from 1..4 concurrent senders (UDP-style datagrams through 1..3 parser goroutines, or protobuf events on the real /v2/event route) run through DatagramParser -> CloudHandler -> TagHandler -> BackendHandler with 0..3 capturing backends, max-concurrent-events 1..4, "
+            "per-sender cache hit / negative hit / miss-then-success / miss-then-failure answered by a harness-owned instance cache, and static tags overlapping the event tags; every backend must receive exactly the multiset of accepted events with title, text (newlines restored), time (given or receipt), aggregation key, source type, priority, alert type, "
+            "tags = event + cloud + static as a set, and source = sender or instance id. A gated variant blocks every backend in SendEvent and requires WaitForEvents not to return before the gate (and a pending lookup) is released and to return afterwards with all calls completed. A forwarder-mode variant requires exactly one upstream /v2/event request per accepted event with the same fields. Exploration; race detector on a subset in the thorough tier.",
+    "note": "Known finding (probe + KNOWN-FINDING line): in forwarder mode an event carrying a string that is not valid UTF-8 is discarded (same root cause as C15's finding). The harness waits for parked metric batches before shutting the pipeline down (dispatch into a stopped BackendHandler is outside every listed property).",
+    "technique": "property-based testing (rapid) of the composed event pipeline with an exactly-once multiset oracle and a gated completion oracle",
+}
